@@ -21,7 +21,7 @@ from ..worlds import store
 ID = "C01"
 LEVEL = "exploration"
 CHUNK = 40
-BUDGET = {"quick": {"runs": 3000, "wall": 150}, "thorough": {"runs": 150000, "wall": 3000}}
+BUDGET = {"quick": {"runs": 3000, "wall": 150}, "thorough": {"runs": 150000, "wall": 1200}}
 RULE = ("histories of 0-25 accepted events (with deletions/replacements) then 8-30 REQs of 1-6 filters "
         "from a hostile grammar: tag names/values with quotes, backslashes, NUL, %, _, ;, SQL and Python "
         "fragments, non-BMP; ids/authors upper-case, 63/65/66 hex, non-hex; numbers negative, 2^31, 2^63, "
